@@ -37,3 +37,4 @@
   (and (not (= tx vnil)) (= (select s tx) TX_OPEN) (= o tx) (select u tx) (= (select c tx) 0)))
 ; statefun: newStoreErr storeErr
 (define-fun newStoreErr ((now Bool) (before Bool)) Bool (and now (not before)))
+; ghost: txStopped (Array Val Bool)
